@@ -34,9 +34,17 @@ theorem no_other_scheme (W : World) (pk : PubKey) (alg : Cbor) (sig data : Bytes
   | verify s =>
     simp only
     show Prog.trace W _ = _
-    cases hv : W (.sigVerify pk s sig data) <;>
+    cases hv : W (.sigVerify pk s sig data) with
+    | valid =>
       simp [sigVerifyM, askM, ExceptT.lift, ExceptT.run, ExceptT.mk, bind, ExceptT.bind, ExceptT.bindCont,
         Prog.bind, Prog.trace, hv, Functor.map, throw, throwThe, MonadExceptOf.throw, pure, ExceptT.pure]
+    | invalid =>
+      simp [sigVerifyM, askM, ExceptT.lift, ExceptT.run, ExceptT.mk, bind, ExceptT.bind, ExceptT.bindCont,
+        Prog.bind, Prog.trace, hv, Functor.map, throw, throwThe, MonadExceptOf.throw, pure, ExceptT.pure]
+    | raised c =>
+      rcases sigSeen_raised_cases s c with h | h <;>
+      simp [sigVerifyM, askM, ExceptT.lift, ExceptT.run, ExceptT.mk, bind, ExceptT.bind, ExceptT.bindCont,
+        Prog.bind, Prog.trace, hv, h, Functor.map, throw, throwThe, MonadExceptOf.throw, pure, ExceptT.pure]
 
 /-- an accepted signature check means the library said `valid` for that one query -/
 theorem accepted_means_valid {W : World} {pk : PubKey} {alg : Cbor} {sig data : Bytes} {err : Err}
